@@ -75,7 +75,7 @@ pub fn c05(rep: &mut Report, cfg: &Cfg) {
         rep.exhaustive.push(format!("{}: all 128 even 8-bit displacements", if pat == "4cpp" { "Bcc d:8" } else { "BSR d:8" }));
     }
     // 3. every control-flow form through the generic builder (targets, stacks, vector slots, upper bytes)
-    let per_form = cfg.share(cfg.n(20_000, 600_000));
+    let per_form = cfg.share(cfg.n(20_000, 4_000_000));
     for pat in gen::forms_of(Group::Flow) {
         if pat == "5670" || pat == "57t0" {
             continue; // RTE / TRAPA belong to C06
@@ -98,7 +98,7 @@ pub fn c05(rep: &mut Report, cfg: &Cfg) {
     drain_strays(rep, check, &mut lock, &judge);
 
     // 4. call/return histories: generated call trees, shadow call stack
-    let sessions = cfg.share(cfg.n(400, 12_000));
+    let sessions = cfg.share(cfg.n(400, 80_000));
     for _ in 0..sessions {
         let seed = rng.next();
         calltree_session(rep, check, seed, false);
@@ -409,7 +409,7 @@ pub fn c06(rep: &mut Report, cfg: &Cfg) {
     lock.full_every = 512;
     let judge = Judge::FULL.only(super::common::is_exception);
     let mut work = 0u64;
-    let reps = cfg.n(2, 30);
+    let reps = cfg.n(2, 160);
     // 1. TRAPA #1-3 x all 256 CCR; RTE x all 256 saved CCR values
     for ccr in 0..256u32 {
         for t in 1..=3u8 {
@@ -478,7 +478,7 @@ pub fn c06(rep: &mut Report, cfg: &Cfg) {
     lock.finish();
     drain_strays(rep, check, &mut lock, &judge);
     // 3. nesting histories
-    let sessions = cfg.share(cfg.n(300, 10_000));
+    let sessions = cfg.share(cfg.n(300, 60_000));
     for _ in 0..sessions {
         let seed = rng.next();
         excwalk_session(rep, check, seed, false);
